@@ -45,6 +45,9 @@ func ruleLATOM(pkgs ...string) func(p *Program, r *Reporter) {
 			}
 			l := p.Field(g.pkg, lt, g.lockField)
 			if f == nil || l == nil {
+				if g.optional {
+					continue
+				}
 				r.Anchor(id, fmt.Sprintf("guard table entry %s.%s.%s -> %s", g.pkg, g.typ, g.field, g.lockField))
 				continue
 			}
